@@ -566,6 +566,7 @@ func (p *prop) genE2E(rng *core.Rand) string {
 }
 
 var malformed = []string{
+	"res", "res a", "res a d", "res a b c", "res ab c",
 	"quic", "quic o0", "quic o1,o1", "quic c1", "quic o1,o2,o3", "quic o1,c1,o1", "quic o1,,p", "quic o1 p", "quic x", "quic o1,c2",
 	"cf2", "cf2 Z", "cf2 q r", "cf2 ~",
 	"cf", "cf n", "cf n 2", "cf n 2/", "cf n 6/q", "cf n 2/q;2/r", "cf z 2/q", "cf n 2/Z", "cf n 2/q;", "cf n 2/q 1", "cf n 2/~q",
@@ -664,6 +665,12 @@ func (p *prop) Generate(rng *core.Rand, tier string, emit func(string)) {
 	r4 := rng.Fork()
 	for _, m := range malformed {
 		emit(m)
+	}
+	// session resumption across connection policies: every ordered pair, every run
+	for _, x := range []string{"a", "b", "c"} {
+		for _, y := range []string{"a", "b", "c"} {
+			emit("res " + x + " " + y)
+		}
 	}
 	// one site block on two ports: every single subdirective and a few combinations, every run
 	for _, sub := range []string{".", "r", "q", "g", "R", "k", "f", "l", "j", "p", "v", "x", "K", "F", "qk", "vr", "pq", "lq", "kp"} {
